@@ -65,6 +65,12 @@ func main() {
 		engine.WorkerMain(os.Args[2:])
 		return
 	}
+	if id == "CCRACE" {
+		n, _ := strconv.Atoi(os.Args[2])
+		seed, _ := strconv.ParseInt(os.Args[3], 10, 64)
+		ccrypto.RaceBody(n, seed)
+		return
+	}
 	if id == "C11RACE" {
 		n, _ := strconv.Atoi(os.Args[2])
 		c11.RaceBody(n)
